@@ -9,6 +9,7 @@ them); `read given rows` is what `SupervisedSimulation.read` yields for `label_t
 `firstLevels rows` the levels of the first label when it is a `Categorical`.
 -/
 import CobaVerif.Lemmas.C14
+import CobaVerif.Generated.C14Supervised
 
 namespace Coba.C14
 
@@ -568,9 +569,9 @@ theorem end_to_end_arff_file_dense_meets (ind : Int) (hdr : Option (List C12.Tex
     ∃ exs, DenseSplit ind table exs ∧ MeetsStatement given exs ints ∧ simPairs given none exs = .ok ints :=
   denseByCol_index_meets' ind hdr given table ints h
 
-/- theorem end_to_end_arff_file_sparse (a whole sparse file of a canonical writer) — needs the round trip of `C12.arffRead` /
-   `sparseRows` over a whole sparse file, which C12 does not have (row level only: `arff_sparse_roundtrip_partial`).  Proved
-   under that round trip as the explicit, named hypothesis `SparseFileRoundTrip` (Lemmas/C14): -/
+/-- phase 4 form, under the explicit, named hypothesis `SparseFileRoundTrip` (Lemmas/C14).  Since phase 5 the hypothesis is
+discharged for every whole sparse file of the canonical writer (`sparse_file_roundtrip`, `sparse_file_roundtrip_relation` below, from
+C12's `arff_sparse_table_roundtrip`); `end_to_end_arff_file_sparse` / `end_to_end_arff_sparse_xy` state the result without it. -/
 theorem end_to_end_arff_file_sparse_under (lines : List C12.Text) (names : List C12.Text) (srows : List C12.SparseRow)
     (hrt : SparseFileRoundTrip lines names srows) (lc : LabelCol) (given : Option LType)
     (ints : List (Interaction (List (Val × Label))))
@@ -584,5 +585,168 @@ whose simulation offers the levels that occur, in declared order -/
 example : (∃ names srows, SparseFileRoundTrip sparseDemo names srows) ∧
     sparseActions (.name [121]) none sparseDemo = some [[.str "x", .str "z"], [.str "x", .str "z"]] :=
   ⟨sparseDemo_roundtrip, sparseDemo_actions⟩
+
+/-! ## Phase 5 -/
+
+/-! ### whole sparse ARFF files: the named hypothesis `SparseFileRoundTrip` is discharged by C12's `arff_sparse_table_roundtrip` -/
+
+/-- the hypothesis of `end_to_end_arff_file_sparse_under` holds for every whole sparse file of the Weka / OpenML-style writer
+(hypotheses exactly those of C12's `arff_sparse_table_roundtrip`; the file given up to `arffNormalize`) -/
+theorem sparse_file_roundtrip (q : Nat) (hq : q = C12.SQ ∨ q = C12.DQ) (also : Nat → Bool) (attrs : List C12.AttrW) (dkw : C12.Text)
+    (rows : List (Nat × List (C12.Text × C12.CellW)))
+    (hattrs : attrs ≠ []) (hok : ∀ a ∈ attrs, a.ok false = true) (hnd : (attrs.map (·.name.2)).Nodup)
+    (hdkw : C12.lowerAscii dkw = C12.kwData) (hne : rows ≠ [])
+    (hrows : ∀ r ∈ rows, C12.sparseRowWOk attrs.length (attrs.map (·.typ.enc false)) r.2 = true)
+    (lines : List C12.Text)
+    (hnorm : C12.arffNormalize lines = attrs.map (·.line q also) ++ dkw :: rows.map (fun r => C12.sparseRowLine r.1 r.2)) :
+    SparseFileRoundTrip lines (attrs.map (·.name.2)) (sparseWritten attrs rows) :=
+  sparse_file_roundtrip' q hq also attrs dkw rows hattrs hok hnd hdkw hne hrows lines hnorm
+
+/-- a whole sparse ARFF file end to end, no named hypothesis left: the interactions meet the statement for the written rows
+(`sparseRowOut`: the written items under their column names + coba's defaults for unwritten string/nominal columns) split at the
+label key (`sparseKey`: a name, or an index translated to its column name; an absent label is 0), and they are exactly those of the
+in-memory (X,Y) form over these examples -/
+theorem end_to_end_arff_file_sparse (q : Nat) (hq : q = C12.SQ ∨ q = C12.DQ) (also : Nat → Bool) (attrs : List C12.AttrW) (dkw : C12.Text)
+    (rows : List (Nat × List (C12.Text × C12.CellW)))
+    (hattrs : attrs ≠ []) (hok : ∀ a ∈ attrs, a.ok false = true) (hnd : (attrs.map (·.name.2)).Nodup)
+    (hdkw : C12.lowerAscii dkw = C12.kwData) (hne : rows ≠ [])
+    (hrows : ∀ r ∈ rows, C12.sparseRowWOk attrs.length (attrs.map (·.typ.enc false)) r.2 = true)
+    (lines : List C12.Text)
+    (hnorm : C12.arffNormalize lines = attrs.map (·.line q also) ++ dkw :: rows.map (fun r => C12.sparseRowLine r.1 r.2))
+    (lc : LabelCol) (given : Option LType) (ints : List (Interaction (List (Val × Label))))
+    (h : arffFileSim lc given none lines = .sparse (.ok ints)) :
+    ∃ table, sparseTable (rows.map fun r => C12.sparseRowOut (attrs.map (·.name.2)) (attrs.map (·.typ.enc false)) r.2) = .ok table ∧
+      MeetsStatement given (table.map (splitSparse (sparseKey (attrs.map (·.name.2)) lc) (Label.atom (.num 0)))) ints ∧
+      simPairs given none (table.map (splitSparse (sparseKey (attrs.map (·.name.2)) lc) (Label.atom (.num 0)))) = .ok ints :=
+  end_to_end_arff_file_sparse' q hq also attrs dkw rows hattrs hok hnd hdkw hne hrows lines hnorm lc given ints h
+
+/-- the (X,Y) equation alone (the form of `end_to_end_csv_xy` / `end_to_end_libsvm_xy`) -/
+theorem end_to_end_arff_sparse_xy (q : Nat) (hq : q = C12.SQ ∨ q = C12.DQ) (also : Nat → Bool) (attrs : List C12.AttrW) (dkw : C12.Text)
+    (rows : List (Nat × List (C12.Text × C12.CellW)))
+    (hattrs : attrs ≠ []) (hok : ∀ a ∈ attrs, a.ok false = true) (hnd : (attrs.map (·.name.2)).Nodup)
+    (hdkw : C12.lowerAscii dkw = C12.kwData) (hne : rows ≠ [])
+    (hrows : ∀ r ∈ rows, C12.sparseRowWOk attrs.length (attrs.map (·.typ.enc false)) r.2 = true)
+    (lines : List C12.Text)
+    (hnorm : C12.arffNormalize lines = attrs.map (·.line q also) ++ dkw :: rows.map (fun r => C12.sparseRowLine r.1 r.2))
+    (lc : LabelCol) (given : Option LType) (ints : List (Interaction (List (Val × Label))))
+    (h : arffFileSim lc given none lines = .sparse (.ok ints)) :
+    ∃ table, sparseTable (rows.map fun r => C12.sparseRowOut (attrs.map (·.name.2)) (attrs.map (·.typ.enc false)) r.2) = .ok table ∧
+      simPairs given none (table.map (splitSparse (sparseKey (attrs.map (·.name.2)) lc) (Label.atom (.num 0)))) = .ok ints :=
+  (end_to_end_arff_file_sparse' q hq also attrs dkw rows hattrs hok hnd hdkw hne hrows lines hnorm lc given ints h).imp fun _ t => ⟨t.1, t.2.2⟩
+
+/-- the hypotheses are met by the writer's data of the demo file (`@attribute a numeric`, `@attribute y {x,z}`, `@data`, `{0 2,1 z}`, `{1 x}`),
+and what it writes is that file -/
+example : demoAttrs.map (·.line C12.SQ (fun _ => false)) ++ a2t "@data" :: demoRows.map (fun r => C12.sparseRowLine r.1 r.2) = sparseDemo ∧
+    (demoAttrs ≠ [] ∧ (∀ a ∈ demoAttrs, a.ok false = true) ∧ (demoAttrs.map (·.name.2)).Nodup ∧
+    C12.lowerAscii (a2t "@data") = C12.kwData ∧ demoRows ≠ [] ∧
+    (∀ r ∈ demoRows, C12.sparseRowWOk demoAttrs.length (demoAttrs.map (·.typ.enc false)) r.2 = true) ∧
+    C12.arffNormalize sparseDemo = sparseDemo) := ⟨demo_written, demo_hyps⟩
+
+/-! ### whole-file ARFF with take (goal 2) -/
+
+/-- sparse file + take: the interactions are those of the reservoir's sample (C09, seed 1) of the written rows — a sub-multiset of
+size `min k n` — and meet the statement for the sampled rows split at the label key; (X,Y) form included -/
+theorem end_to_end_arff_file_sparse_take (q : Nat) (hq : q = C12.SQ ∨ q = C12.DQ) (also : Nat → Bool) (attrs : List C12.AttrW) (dkw : C12.Text)
+    (rows : List (Nat × List (C12.Text × C12.CellW)))
+    (hattrs : attrs ≠ []) (hok : ∀ a ∈ attrs, a.ok false = true) (hnd : (attrs.map (·.name.2)).Nodup)
+    (hdkw : C12.lowerAscii dkw = C12.kwData) (hne : rows ≠ [])
+    (hrows : ∀ r ∈ rows, C12.sparseRowWOk attrs.length (attrs.map (·.typ.enc false)) r.2 = true)
+    (lines : List C12.Text)
+    (hnorm : C12.arffNormalize lines = attrs.map (·.line q also) ++ dkw :: rows.map (fun r => C12.sparseRowLine r.1 r.2))
+    (lc : LabelCol) (given : Option LType) (k : Nat) (steps : List C09.Step) (ints : List (Interaction (List (Val × Label))))
+    (h : arffFileSim lc given (some (k, steps)) lines = .sparse (.ok ints)) :
+    ∃ sample, C09.reservoir (some k) false (C05.normInt 1) steps (sparseWritten attrs rows) = .ok sample ∧
+      sample.Subperm (sparseWritten attrs rows) ∧ sample.length = min k rows.length ∧
+      ∃ table, sparseTable (sample.map (·.items)) = .ok table ∧
+        MeetsStatement given (table.map (splitSparse (sparseKey (attrs.map (·.name.2)) lc) (Label.atom (.num 0)))) ints ∧
+        simPairs given none (table.map (splitSparse (sparseKey (attrs.map (·.name.2)) lc) (Label.atom (.num 0)))) = .ok ints :=
+  end_to_end_arff_file_sparse_take' q hq also attrs dkw rows hattrs hok hnd hdkw hne hrows lines hnorm lc given k steps ints h
+
+/-- dense file + take: `LabelRows` + `read` over the reservoir's sample of the written rows, label column by index or name
+(`end_to_end_arff_file_dense_meets` then gives the statement and the (X,Y) form for an index, `label_by_name` for a name) -/
+theorem end_to_end_arff_file_dense_take (q : Nat) (hq : q = C12.SQ ∨ q = C12.DQ) (also : Nat → Bool) (attrs : List C12.AttrW) (dkw : C12.Text)
+    (rows : List (Nat × List (Bool × C12.CellW)))
+    (hattrs : attrs ≠ []) (hok : ∀ a ∈ attrs, a.ok true = true) (hnd : (attrs.map (·.name.2)).Nodup)
+    (hdkw : C12.lowerAscii dkw = C12.kwData) (hne : rows ≠ [])
+    (hrows : ∀ r ∈ rows, C12.denseRowWOk q also r.1 (attrs.map (·.typ.enc true)) r.2 = true)
+    (hfirst : ∀ r, rows.head? = some r → C12.notBraced (C12.denseRowLine q also r.1 r.2) = true)
+    (lines : List C12.Text)
+    (hnorm : C12.arffNormalize lines = attrs.map (·.line q also) ++ dkw :: rows.map (fun r => C12.denseRowLine q also r.1 r.2))
+    (lc : LabelCol) (given : Option LType) (k : Nat) (steps : List C09.Step) (ints : List (Interaction (List Label)))
+    (h : arffFileSim lc given (some (k, steps)) lines = .dense (.ok ints)) :
+    ∃ sample, C09.reservoir (some k) false (C05.normInt 1) steps (denseWritten attrs rows) = .ok sample ∧
+      sample.Subperm (denseWritten attrs rows) ∧ sample.length = min k rows.length ∧
+      ∃ table, rowsLabels (sample.map (·.cells)) = .ok table ∧
+        denseByCol (some (attrs.map (·.name.2))) lc given table = .ok ints :=
+  end_to_end_arff_file_dense_take' q hq also attrs dkw rows hattrs hok hnd hdkw hne hrows hfirst lines hnorm lc given k steps ints h
+
+/-! ### `HeadRows`: which column a header name stands for -/
+
+/-- `headerIndex` (= `dict(zip(headers, count()))[name]`) is **the last column of that name** -/
+theorem headerIndex_spec (h : List C12.Text) (nm : C12.Text) (i : Nat) :
+    headerIndex h nm = some i ↔ h[i]? = some nm ∧ ∀ j, i < j → h[j]? ≠ some nm := headerIndex_some_iff' h nm i
+
+/-- … and it fails (`KeyError`) exactly for a name no column has -/
+theorem headerIndex_none (h : List C12.Text) (nm : C12.Text) : headerIndex h nm = none ↔ nm ∉ h := headerIndex_none_iff' h nm
+
+example : headerIndex [[121], [102], [121]] [121] = some 2 ∧ headerIndex [[121], [102]] [122] = none := by decide
+
+/-! ### translator obligation: `SupervisedSimulation.__init__` / `.read` as extracted from the current source -/
+
+/-- the tables `harness/props/c14.py` (`pre_build`) reads off the current `coba/environments/supervised.py` with Python's `ast` —
+reward constructor and action computation reached for every label-type literal (either case) × "first label is a Categorical",
+the numeric types and the two literals of the inference, the precedence explicit > tipe > inferred, the argument positions /
+keyword names / defaults of both overloads (`label_col`, `label_type`, `take` default to None), `Reservoir(take)` joined before
+`LabelRows(label_col,label_type)`, and what an interaction is built from — are the ones the model assumes -/
+theorem supervised_source_as_modelled :
+    Coba.Generated.C14.extracted = true ∧ Coba.Generated.C14.dispatch = dispatchTable ∧
+    Coba.Generated.C14.inferNumeric = inferNumericTypes ∧
+    parseLType Coba.Generated.C14.inferThen = some .r ∧ parseLType Coba.Generated.C14.inferElse = some .c ∧
+    Coba.Generated.C14.sourcesNoTipe = typeSources false ∧ Coba.Generated.C14.sourcesTipe = typeSources true ∧
+    Coba.Generated.C14.sourceArgs = ctorSourceArgs ∧ Coba.Generated.C14.xyArgs = ctorXYArgs ∧
+    Coba.Generated.C14.joins = pipelineJoins ∧ Coba.Generated.C14.yields = yieldTable := by decide
+
+/-- the model's `read` dispatches as its table says, for all inputs: every reward object has the class of the label type in force -/
+theorem reward_class_dispatch {χ : Type} (given : Option LType) (rows : List (χ × Label)) (ints : List (Interaction χ)) (t : LType)
+    (h : read given rows = .ok ints) (ht : typeOf given rows = some t) :
+    ∀ x ∈ ints, x.reward.className = rewardClassOf t := read_reward_class' given rows ints t h ht
+
+example : (read (χ := Nat) (parseLType "M") [(1, .list [.str "a", .str "b"]), (2, .list [.str "b"])]).toOption.map (·.map (·.reward.className)) =
+      some ["HammingReward", "HammingReward"] ∧
+    (read (χ := Nat) none [(1, .cat "y" ["z", "y"]), (2, .cat "z" ["z", "y"])]).toOption.map (·.map (·.reward.className)) =
+      some ["BinaryReward", "BinaryReward"] := by decide +kernel
+
+/-- … and the row of that label type (given by any literal `label_type.lower()` maps to it) is in the extracted table, its
+constructor being that class, applied to the label or to the delisted label -/
+theorem dispatch_row_extracted (lit : String) (t : LType) (cat : Bool) (h : parseLType lit = some t) :
+    (lit, cat, rewardCtorOf t cat, actionsKindOf t cat) ∈ Coba.Generated.C14.dispatch ∧
+    (rewardCtorOf t cat = rewardClassOf t ∨ rewardCtorOf t cat = rewardClassOf t ++ "(delist)") :=
+  ⟨supervised_source_as_modelled.2.1 ▸ dispatch_row_mem' lit t cat h, rewardCtor_class' t cat⟩
+
+example : parseLType "M" = some .m ∧ parseLType "c" = some .c ∧ parseLType "x" = none := by decide
+
+/-- where the label type comes from (`typeSources`): the explicit `label_type`, else the rows' `tipe`, else inferred from the first
+label — number ⇒ `r` (the extracted `inferThen`), anything else ⇒ `c` (`inferElse`) -/
+theorem label_type_resolution (g tipe : Option LType) (first : Label) :
+    inferType (resolveGiven g tipe) first =
+      match g, tipe with
+      | some t, _ => t
+      | none, some t => t
+      | none, none => match first with | .atom (.num _) => .r | _ => .c := label_type_resolution' g tipe first
+
+/-- the same with a `@relation` line (or any other line that is neither `@data` nor an attribute line) in front — the files the
+harness' sparse writer emits; with `end_to_end_arff_file_sparse_under` this gives the statement for them -/
+theorem sparse_file_roundtrip_relation (q : Nat) (hq : q = C12.SQ ∨ q = C12.DQ) (also : Nat → Bool) (attrs : List C12.AttrW) (dkw : C12.Text)
+    (rows : List (Nat × List (C12.Text × C12.CellW)))
+    (hattrs : attrs ≠ []) (hok : ∀ a ∈ attrs, a.ok false = true) (hnd : (attrs.map (·.name.2)).Nodup)
+    (hdkw : C12.lowerAscii dkw = C12.kwData) (hne : rows ≠ [])
+    (hrows : ∀ r ∈ rows, C12.sparseRowWOk attrs.length (attrs.map (·.typ.enc false)) r.2 = true)
+    (rel : C12.Text) (hr1 : C12.lowerAscii rel ≠ C12.kwData) (hr2 : C12.lowerAscii (rel.take 5) ≠ C12.kwAttr)
+    (lines : List C12.Text)
+    (hnorm : C12.arffNormalize lines = rel :: (attrs.map (·.line q also) ++ dkw :: rows.map (fun r => C12.sparseRowLine r.1 r.2))) :
+    SparseFileRoundTrip lines (attrs.map (·.name.2)) (sparseWritten attrs rows) :=
+  sparse_file_roundtrip_relation' q hq also attrs dkw rows hattrs hok hnd hdkw hne hrows rel hr1 hr2 lines hnorm
+
+example : C12.lowerAscii (a2t "@relation verif") ≠ C12.kwData ∧ C12.lowerAscii ((a2t "@relation verif").take 5) ≠ C12.kwAttr := by decide
 
 end Coba.C14
